@@ -199,6 +199,11 @@ package parser
 
 //@ func (p *parser) parseCommentLiteral
 //@ requires pinv(p)
+// C18: a comment tag ends at the first %> after it opens - no token is read past a closing tag -
+// and stands for the empty string
+//@ assert first: p.curToken.Type != token.E_END && p.curToken.Type != token.EOF before nextToken#*
+//@ ensures stop: p.curToken.Type == token.E_END || p.curToken.Type == token.EOF
+//@ ensures nothing: is(result, "*ast.StringLiteral") && unbox(result, "*ast.StringLiteral").Value == ""
 //@ ensures inv: lexer.linv(p.Lexer) && lexer.lhtml(p.Lexer) && errsok(p) && M(p) <= old(M(p))
 //@ ensures flag: p.inForBlock == old(p.inForBlock)
 //@ ensures wf: result == nil || pay(result) != 0
